@@ -20,6 +20,27 @@ class NotFinite(Exception):
     pass
 
 
+class FinObj:
+    """a record the evaluated function may read and write attributes of (ev reads every attribute, stores go through _bind2)"""
+
+    def __init__(self, **kw):
+        self.__dict__.update(kw)
+
+    @property
+    def _fin_attrs(self):
+        return tuple(self.__dict__)
+
+
+import datetime as _datetime
+import time as _time
+
+# the checker's own calendar is the oracle for dates (stated in the assumptions of the properties that use it)
+_CALENDAR_TYPES = (_datetime.date, _time.struct_time)
+_CALENDAR_ATTRS = ("year", "month", "day", "tm_yday", "tm_year", "tm_mon", "tm_mday")
+_CALENDAR_METHODS = ("toordinal", "timetuple", "weekday", "isoweekday", "replace")
+CALENDAR_FUNCS = {"_dt.date": _datetime.date, "_dt.date.fromordinal": _datetime.date.fromordinal, "datetime.date": _datetime.date,
+                  "_dt.date.toordinal": _datetime.date.toordinal}
+
 _BIN = {ast.Add: operator.add, ast.Sub: operator.sub, ast.Mult: operator.mul, ast.FloorDiv: operator.floordiv,
         ast.Mod: operator.mod, ast.Pow: operator.pow, ast.BitOr: operator.or_, ast.BitAnd: operator.and_}
 _CMP = {ast.Eq: operator.eq, ast.NotEq: operator.ne, ast.Lt: operator.lt, ast.LtE: operator.le,
@@ -31,8 +52,9 @@ _SAFE_FUNCS = {"int": int, "abs": abs, "min": min, "max": max, "len": len, "rang
                "any": any, "all": all, "dict": dict}
 
 
-def ev(node, env: dict, funcs: dict | None = None):
+def ev(node, env: dict, funcs: dict | None = None, methods: dict | None = None):
     funcs = funcs or {}
+    methods = methods or {}
 
     def e(n, env=env):
         if isinstance(n, ast.Constant):
@@ -50,6 +72,8 @@ def ev(node, env: dict, funcs: dict | None = None):
             except NotFinite:
                 raise NotFinite(f"unbound attribute {unparse(n)}")
             if n.attr in getattr(obj, "_fin_attrs", ()):
+                return getattr(obj, n.attr)
+            if isinstance(obj, _CALENDAR_TYPES) and n.attr in _CALENDAR_ATTRS:
                 return getattr(obj, n.attr)
             raise NotFinite(f"unbound attribute {unparse(n)}")
         if isinstance(n, ast.UnaryOp):
@@ -145,6 +169,30 @@ def ev(node, env: dict, funcs: dict | None = None):
                 return funcs[name](*args, **kws)
             if name in env and callable(env[name]):
                 return env[name](*args, **kws)
+            if isinstance(n.func, ast.Call):
+                fobj = e(n.func, env)
+                if callable(fobj):
+                    return fobj(*args, **kws)
+            if name and name.startswith("self.") and name.count(".") == 1 and name[5:] in methods:
+                # a helper method of the same class: evaluated the same way, with the caller's view of self
+                callee = methods[name[5:]]
+                ps = [a.arg for a in callee.args.posonlyargs + callee.args.args]
+                bound = dict(zip(ps[1:], args))
+                bound.update(kws)
+                for a, dflt in zip(reversed(ps), reversed(callee.args.defaults)):
+                    if a not in bound:
+                        bound[a] = e(dflt, {})
+                sub_env = {k: v for k, v in env.items() if k == "self" or k.startswith("self.") or "." in k or callable(v)}
+                if ps and ps[0] != "self":
+                    sub_env.update({ps[0] + k[4:]: v for k, v in env.items() if k == "self" or k.startswith("self.")})
+                return run_function(callee, bound, funcs, sub_env, methods=methods)
+            if isinstance(n.func, ast.Attribute) and n.func.attr in _CALENDAR_METHODS:
+                try:
+                    obj = e(n.func.value, env)
+                except NotFinite:
+                    obj = None
+                if isinstance(obj, _CALENDAR_TYPES):
+                    return getattr(obj, n.func.attr)(*args, **kws)
             if name in _SAFE_FUNCS:
                 return _SAFE_FUNCS[name](*args, **kws)
             raise NotFinite(f"call {unparse(n)[:50]}")
@@ -166,7 +214,7 @@ def _bind(target, value, env):
         raise NotFinite("bind target")
 
 
-def run_function(f, args: dict, funcs=None, env=None, final_env=None):
+def run_function(f, args: dict, funcs=None, env=None, final_env=None, methods=None):
     """Evaluate a straight-line integer function (assignments, if/else, return) on given arguments.
     final_env: a dict that receives the environment at exit (attribute stores are kept under their dotted names)."""
     env = dict(env or {})
@@ -175,38 +223,69 @@ def run_function(f, args: dict, funcs=None, env=None, final_env=None):
     class _Ret(Exception):
         def __init__(self, v): self.v = v
 
+    class _Continue(Exception):
+        pass
+
+    class _Break(Exception):
+        pass
+
     def run(stmts):
         for st in stmts:
+            if isinstance(st, (ast.FunctionDef,)):
+                ps = [a.arg for a in st.args.posonlyargs + st.args.args]
+                env[st.name] = (lambda *a, _f=st, _ps=ps: run_function(_f, dict(zip(_ps, a)), funcs, env, methods=methods))
+                continue
+            if isinstance(st, ast.Continue):
+                raise _Continue()
+            if isinstance(st, ast.Break):
+                raise _Break()
+            if isinstance(st, ast.For) and not st.orelse:
+                steps = 0
+                try:
+                    for item in ev(st.iter, env, funcs, methods):
+                        steps += 1
+                        if steps > 10000:
+                            raise NotFinite("loop too long")
+                        _bind2(st.target, item)
+                        try:
+                            run(st.body)
+                        except _Continue:
+                            continue
+                except _Break:
+                    pass
+                continue
             if isinstance(st, ast.Expr) and isinstance(st.value, ast.Constant):
                 continue
             if isinstance(st, ast.Pass):
                 continue
             if isinstance(st, ast.Return):
-                raise _Ret(ev(st.value, env, funcs) if st.value is not None else None)
+                raise _Ret(ev(st.value, env, funcs, methods) if st.value is not None else None)
             if isinstance(st, ast.Assign):
-                v = ev(st.value, env, funcs)
+                v = ev(st.value, env, funcs, methods)
                 for t in st.targets:
                     _bind2(t, v)
                 continue
             if isinstance(st, ast.AugAssign) and isinstance(st.target, ast.Name):
                 op = _BIN.get(type(st.op))
-                env[st.target.id] = op(env[st.target.id], ev(st.value, env, funcs))
+                env[st.target.id] = op(env[st.target.id], ev(st.value, env, funcs, methods))
                 continue
             if isinstance(st, ast.AugAssign) and isinstance(st.target, ast.Attribute) and dotted(st.target) in env:
                 op = _BIN.get(type(st.op))
-                env[dotted(st.target)] = op(env[dotted(st.target)], ev(st.value, env, funcs))
+                env[dotted(st.target)] = op(env[dotted(st.target)], ev(st.value, env, funcs, methods))
                 continue
             if isinstance(st, ast.Expr) and isinstance(st.value, ast.Call):
-                ev(st.value, env, funcs)
+                ev(st.value, env, funcs, methods)
                 continue
             if isinstance(st, ast.If):
-                run(st.body if ev(st.test, env, funcs) else st.orelse)
+                run(st.body if ev(st.test, env, funcs, methods) else st.orelse)
                 continue
             raise NotFinite(f"statement {type(st).__name__}")
 
     def _bind2(t, v):
         if isinstance(t, ast.Name):
             env[t.id] = v
+        elif isinstance(t, ast.Attribute) and isinstance(t.value, ast.Name) and isinstance(env.get(t.value.id), FinObj):
+            setattr(env[t.value.id], t.attr, v)
         elif isinstance(t, ast.Attribute) and dotted(t) is not None:
             env[dotted(t)] = v
         elif isinstance(t, (ast.Tuple, ast.List)):
